@@ -2,7 +2,7 @@
 # Offline setup after a fresh restore: regenerate Gen/*.v from /repo, full .vo build, OCaml driver.
 set -e
 cd "$(dirname "$0")"
-export PYTHONPATH=/verif:/repo PYTHONHASHSEED=0
+export PYTHONPATH="$PWD:${VERIF_REPO:-/repo}" PYTHONHASHSEED=0
 mkdir -p coq/Gen evidence replays
 /venv/bin/python translate/gen.py
 cd coq
